@@ -60,23 +60,24 @@ T1(S) == ToSeqU(Q0(S))                                                     \* se
 S1(S) == S0(S) \cup SeqUr(S0(S)) \cup Binary(S0(S), S0(S)) \cup T1(S)
 Q1(S) == Q0(S) \cup PairU(Q0(S)) \cup Binary(Q0(S), Q0(S)) \cup FromSeqU(S0(S))
 
-Q2(S) == Q0(S) \cup PairU(Q1(S)) \cup Binary(Q1(S), Q1(S)) \cup FromSeqU(S1(S))
-T2(S) == T1(S) \cup ToSeqU(Q1(S)) \cup SeqUr(T1(S)) \cup Binary(T1(S), S1(S)) \cup Binary(S1(S), T1(S))
-
-(* base expressions are tagged <<"pick-pair" | "pick-mix" | "pick-seq", e>>, wrapped ones <<"pair" | "seq", e>>.
-   shape "d2": pair kind = Q2; seq kind = T2 = every expression of depth <= 2 over S1 / Q1 that contains a pair node.
+(* base expressions are tagged <<"pick-pair" | "pick-mix" | "pick-seq", e>>, wrapped ones <<"pair" | "seq", e>> (final),
+   for shape "d3" through intermediate <<"pick2-pair" | "pick2-mix", e>>.
+   shape "d2": pair kind Q2 = Q0 \cup PairU(Q1) \cup Plus(Q1, Q1) \cup FromSeq(S1); seq kind T2 = every expression of
+               depth <= 2 over S1 / Q1 that contains a pair node.
    shape "d3": Q2 and T2 wrapped once more (one side of an outermost Plus being a leaf). *)
 PairBase(shape, w) ==
   LET S == SliceSet(w) IN
-  CASE shape = "d1" -> Tag("pick-pair", Q0(S)) \cup Tag("pick-seq", S0(S))
-    [] shape = "d2" -> Tag("pick-pair", Q1(S)) \cup Tag("pick-mix", T1(S)) \cup Tag("pick-seq", S1(S) \ T1(S))
-    [] shape = "d3" -> Tag("pick-pair", Q2(S)) \cup Tag("pick-mix", T2(S))
+  IF shape = "d1" THEN Tag("pick-pair", Q0(S)) \cup Tag("pick-seq", S0(S))
+  ELSE Tag("pick-pair", Q1(S)) \cup Tag("pick-mix", T1(S)) \cup Tag("pick-seq", S1(S) \ T1(S))
 PairWraps(tag, e, shape, w) ==
   LET S == SliceSet(w)
-      QP == IF shape = "d2" THEN Q1(S) ELSE Q0(S)       \* Plus partners
-      SP == IF shape = "d2" THEN S1(S) ELSE S0(S)
-      QL == IF shape = "d3" THEN Binary(QP, {e}) ELSE {}  \* (for d1 / d2 the partner set is the base set: one side suffices)
-  IN CASE tag = "pick-pair" -> Tag("pair", {e} \cup PairU({e}) \cup Binary({e}, QP) \cup QL) \cup Tag("seq", ToSeqU({e}))
-       [] tag = "pick-mix" -> Tag("seq", {e} \cup SeqUr({e}) \cup Binary({e}, SP) \cup Binary(SP, {e})) \cup Tag("pair", FromSeqU({e}))
-       [] tag = "pick-seq" -> Tag("pair", FromSeqU({e}))
+      QP == IF shape = "d1" THEN Q0(S) ELSE Q1(S)       \* Plus partners of the first wrapping (= the base sets)
+      SP == IF shape = "d1" THEN S0(S) ELSE S1(S)
+      pt == IF shape = "d3" THEN "pick2-pair" ELSE "pair"
+      st == IF shape = "d3" THEN "pick2-mix" ELSE "seq"
+  IN CASE tag = "pick-pair" -> Tag(pt, {e} \cup PairU({e}) \cup Binary({e}, QP)) \cup Tag(st, ToSeqU({e}))
+       [] tag = "pick-mix" -> Tag(st, {e} \cup SeqUr({e}) \cup Binary({e}, SP) \cup Binary(SP, {e})) \cup Tag(pt, FromSeqU({e}))
+       [] tag = "pick-seq" -> Tag(pt, FromSeqU({e}))
+       [] tag = "pick2-pair" -> Tag("pair", PairU({e}) \cup Binary({e}, Q0(S)) \cup Binary(Q0(S), {e})) \cup Tag("seq", ToSeqU({e}))
+       [] tag = "pick2-mix" -> Tag("seq", SeqUr({e}) \cup Binary({e}, S0(S)) \cup Binary(S0(S), {e})) \cup Tag("pair", FromSeqU({e}))
 ====
